@@ -222,6 +222,136 @@ MUTANTS = [
              (HU, "            residual_graph, residual_function = residual_network(graph,flow_function)\n",
               "            residual_graph, residual_function = residual_networkX(graph,flow_function)\n")]),
 
+    # ---- C07.9 early exits (gap review: survivors test-negate share_placement L334, cmp-flip _servermap_flow_graph L257)
+    M("exit-placement-guard-negated", HU, "    if not peers:\n        return dict()\n", "    if peers:\n        return dict()\n", "C07.9",
+      note="sweep survivor: every call with a writable server returns the empty placement"),
+    M("exit-placement-without-existing-shares", HU, "    if not peers:\n        return dict()\n",
+      "    if not peers or not peers_to_shares:\n        return dict()\n", "C07.9",
+      note="'nothing to preserve' mistaken for 'nothing to place': a fresh upload gets no placement at all"),
+    M("exit-flow-graph-guard-flipped", HU, "    if servermap == {}:\n        return []\n", "    if servermap != {}:\n        return []\n", "C07.9",
+      note="sweep survivor: phases 1/2 match nothing; shares held by read-only servers are uploaded again to writable ones"),
+    M("exit-flow-graph-when-more-shares-than-servers", HU, "    if servermap == {}:\n        return []\n",
+      "    if servermap == {} or len(shares) > len(peers):\n        return []\n", "C07.9"),
+    M("exit-benign-len-test", HU, "    if not peers:\n        return dict()\n", "    if len(peers) == 0:\n        return {}\n", None),
+    M("exit-benign-flow-graph-empty-shares", HU, "    if servermap == {}:\n        return []\n",
+      "    if not servermap or not shares:\n        return []\n", None,
+      note="without shares the phase has nothing to give a key to"),
+
+    # ---- C07.10 homeless distribution (gap review: survivors in _distribute_homeless_shares)
+    M("homeless-stale-peer-after-rename", HU,
+      "        peer = pQueue.get()\n        mappings[share] = set([peer[1]])\n        pQueue.put((peer[0]+1, peer[1]))\n",
+      "        entry = pQueue.get()\n        mappings[share] = set([peer[1]])\n        pQueue.put((entry[0]+1, entry[1]))\n", "C07.10",
+      note="incomplete rename: `peer` is the stale variable of the counting loop (a server id; peer[1] is one of its bytes)"),
+    M("homeless-priority-guard-flipped", HU, "                if peer in servermap_peerids:\n                    priority[peer] += 1\n",
+      "                if peer not in servermap_peerids:\n                    priority[peer] += 1\n", "C07.10",
+      note="sweep survivor: KeyError as soon as a read-only server was matched in phase 1 and a share is homeless"),
+    M("homeless-counts-every-server", HU, "                if peer in servermap_peerids:\n                    priority[peer] += 1\n",
+      "                priority[peer] = priority.get(peer, 0) + 1\n", "C07.10",
+      note="read-only servers matched in phase 1 become candidates for brand-new shares"),
+    M("homeless-server-not-put-back", HU, "        mappings[share] = set([peer[1]])\n        pQueue.put((peer[0]+1, peer[1]))\n",
+      "        mappings[share] = set([peer[1]])\n", "C07.10",
+      note="sweep survivor: share_placement({A}, {}, {0,1,2}, {A: {0}}) blocks forever on the second get()"),
+    M("homeless-put-back-only-when-light", HU, "        pQueue.put((peer[0]+1, peer[1]))\n",
+      "        if peer[0] < len(to_distribute):\n            pQueue.put((peer[0]+1, peer[1]))\n", "C07.10"),
+    M("homeless-empty-guard-flipped", HU, "    if priority == {}:\n        return\n", "    if priority != {}:\n        return\n", "C07.10",
+      note="sweep survivor: every fresh upload with more shares than servers blocks in get()"),
+    M("homeless-empty-guard-dropped", HU, "    if priority == {}:\n        return\n", "", "C07.10"),
+    M("homeless-queue-never-filled", HU, "    for peerid in priority:\n        pQueue.put((priority[peerid], peerid))\n", "", "C07.10",
+      note="sweep survivor"),
+    M("homeless-priority-key-value-swapped", HU, "        priority.setdefault(peerid, 0)\n", "        priority.setdefault(0, peerid)\n", "C07.10",
+      note="sweep survivor: the queue then hands out the 'server' 0"),
+    M("homeless-queue-of-all-mapped-servers", HU, "    for peerid in priority:\n        pQueue.put((priority[peerid], peerid))\n",
+      "    for peerid in _extract_ids(mappings)[0]:\n        pQueue.put((priority.get(peerid, 0), peerid))\n", "C07.10"),
+    M("homeless-benign-unpacked-item", HU,
+      "        peer = pQueue.get()\n        mappings[share] = set([peer[1]])\n        pQueue.put((peer[0]+1, peer[1]))\n",
+      "        count, server = pQueue.get()\n        mappings[share] = {server}\n        pQueue.put((count + 1, server))\n", None),
+    M("homeless-benign-priority-comprehension", HU,
+      "    priority = {}\n    pQueue = PriorityQueue()\n    for peerid in servermap_peerids:\n        priority.setdefault(peerid, 0)\n",
+      "    priority = {p: 0 for p in servermap_peerids}\n    pQueue = PriorityQueue()\n", None),
+    M("homeless-benign-truthiness-guard", HU, "    if priority == {}:\n        return\n", "    if not priority:\n        return\n", None),
+    M("homeless-benign-guard-on-table", HU, "                if peer in servermap_peerids:\n                    priority[peer] += 1\n",
+      "                if peer in priority:\n                    priority[peer] = priority[peer] + 1\n", None),
+    M("homeless-benign-keys-form", HU, "    servermap_peerids = set([key for key in peers_to_shares])\n",
+      "    servermap_peerids = set(peers_to_shares.keys())\n", None),
+
+    # ---- C07.11 the selector acts on the placement
+    M("sel-placement-hoisted-out-of-loop", UP,
+      "            errors_before = self._query_stats.bad\n            self._share_placements = self.peer_selector.get_share_placements()\n",
+      "            errors_before = self._query_stats.bad\n", "C07.11",
+      edits=[(UP, "        last_happiness = None\n        effective_happiness = -1\n",
+              "        self._share_placements = self.peer_selector.get_share_placements()\n        last_happiness = None\n"
+              "        effective_happiness = -1\n")],
+      note="'compute once': shares of a server that failed in round 1 are never re-homed"),
+    M("sel-returns-happiness", UP, "        return self.happiness_mappings\n", "        return self.happiness\n", "C07.11"),
+    M("sel-compares-tracker-object", UP, "            if tracker.get_serverid() == tracker_id:\n", "            if tracker == tracker_id:\n", "C07.11",
+      note="never equal: no server is ever asked for a share"),
+    M("sel-allocation-skips-held-shares", UP, "            if tracker.get_serverid() == tracker_id:\n                shares_to_ask.add(shnum)\n",
+      "            if tracker.get_serverid() == tracker_id and shnum in self.homeless_shares:\n                shares_to_ask.add(shnum)\n", "C07.11",
+      note="a share that was rejected elsewhere and re-homed here is asked; one placed here while not 'homeless' is not"),
+    M("sel-adds-server-id", UP, "                shares_to_ask.add(shnum)\n                if shnum in self.homeless_shares:\n",
+      "                shares_to_ask.add(tracker_id)\n                if shnum in self.homeless_shares:\n", "C07.11"),
+    M("sel-query-needs-both-conditions", UP,
+      "                if shares_to_ask != set(tracker.buckets.keys()) or tracker in readonly_trackers:\n",
+      "                if shares_to_ask != set(tracker.buckets.keys()) and tracker in readonly_trackers:\n", "C07.11",
+      note="writable servers are never asked to allocate"),
+    M("sel-loop-over-readonly-trackers", UP, "        trackers = set(write_trackers) | set(readonly_trackers)\n",
+      "        trackers = set(readonly_trackers)\n", "C07.11"),
+    M("sel-size-test-strict", UP, "            if _get_maxsize(server) >= allocated_size\n", "            if _get_maxsize(server) > allocated_size\n", "C07.11",
+      note="a server with exactly enough room is classified read-only and loses its place in the spread"),
+    M("sel-size-test-flipped", UP, "            if _get_maxsize(server) >= allocated_size\n", "            if _get_maxsize(server) <= allocated_size\n", "C07.11"),
+    M("sel-readonly-marks-writable", UP, "        for server in readonly_servers:\n            self.peer_selector.mark_readonly_peer",
+      "        for server in writeable_servers:\n            self.peer_selector.mark_readonly_peer", "C07.11"),
+    M("sel-benign-hoisted-serverid", UP,
+      "        servermap = self._share_placements\n        for shnum, tracker_id in list(servermap.items()):\n            if tracker_id == None:\n"
+      "                continue\n            if tracker.get_serverid() == tracker_id:\n",
+      "        wanted = tracker.get_serverid()\n        for shnum, tracker_id in self._share_placements.items():\n            if tracker_id is None:\n"
+      "                continue\n            if tracker_id == wanted:\n", None),
+    M("sel-benign-placement-temporary", UP,
+      "            self._share_placements = self.peer_selector.get_share_placements()\n",
+      "            fresh = self.peer_selector.get_share_placements()\n            self._share_placements = fresh\n", None),
+    M("sel-benign-skip-empty-request", UP,
+      "                if shares_to_ask != set(tracker.buckets.keys()) or tracker in readonly_trackers:\n",
+      "                if tracker in readonly_trackers or not (shares_to_ask == set(tracker.buckets)):\n", None),
+    M("sel-retry-stops-after-errors", UP, "            if errors_before == self._query_stats.bad:\n", "            if errors_before != self._query_stats.bad:\n", "C07.11",
+      note="sweep survivor: a round with rejected shares is exactly the one that is not followed by a new placement"),
+    M("sel-retry-stops-unless-worse", UP, "            if effective_happiness == last_happiness:\n",
+      "            if effective_happiness >= (last_happiness or 0):\n", "C07.11"),
+    M("sel-benign-retry-compare-swapped", UP, "            if effective_happiness == last_happiness:\n",
+      "            if last_happiness == effective_happiness:\n", None),
+    M("sel-benign-retry-stops-when-nothing-asked", UP, "            yield defer.DeferredList(placements)\n",
+      "            if not placements:\n                break\n            yield defer.DeferredList(placements)\n", None),
+
+    # ---- C07.12 a server that rejected its allocation leaves the next placement
+    # (the pinned tree has this defect: _make_readonly does not tell the peer selector; the first variant is anchored to the
+    # repaired text and is skipped until the repair is applied)
+    M("demote-without-telling-selector", UP,
+      "                readonly_trackers.append(tracker)\n            try:\n                self.peer_selector.mark_readonly_peer(tracker.get_serverid())\n"
+      "            except KeyError:\n                pass\n            return None\n",
+      "                readonly_trackers.append(tracker)\n            return None\n", "C07.12",
+      note="re-introduces the defect on the repaired tree"),
+    M("demote-benign-told-in-buckets-allocated", UP,
+      "                self._query_stats.full += 1\n                self._query_stats.bad += 1\n",
+      "                self._query_stats.full += 1\n                self._query_stats.bad += 1\n"
+      "                try:\n                    self.peer_selector.mark_readonly_peer(tracker.get_serverid())\n"
+      "                except KeyError:\n                    pass\n", None,
+      note="the other place where the selector can be told; silent on the pinned and on the repaired tree"),
+
+    # ---- C07.13 the placement sees the existing shares of read-only servers
+    M("existing-ro-answer-unhandled", UP, "            d.addBoth(self._handle_existing_response, tracker)\n            ds.append(d)\n",
+      "            ds.append(d)\n", "C07.13", note="sweep survivor (dropped callback)"),
+    M("existing-ro-answer-not-collected", UP, "            d.addBoth(self._handle_existing_response, tracker)\n            ds.append(d)\n",
+      "            d.addBoth(self._handle_existing_response, tracker)\n", "C07.13", note="sweep survivor"),
+    M("existing-answers-not-awaited", UP, "        yield defer.DeferredList(ds)\n", "        defer.DeferredList(ds)\n", "C07.13",
+      note="sweep survivor: the first placement is computed before any server answered"),
+    M("existing-recorded-under-share", UP, "                self.peer_selector.add_peer_with_share(serverid, bucket)\n                self.preexisting_shares",
+      "                self.peer_selector.add_peer_with_share(bucket, serverid)\n                self.preexisting_shares", "C07.13"),
+    M("existing-failure-test-negated", UP, "        serverid = tracker.get_serverid()\n        if isinstance(res, failure.Failure):\n",
+      "        serverid = tracker.get_serverid()\n        if not isinstance(res, failure.Failure):\n            buckets = res\n", "C07.13"),
+    M("existing-benign-sorted-answer", UP, "            for bucket in buckets:\n                self.peer_selector.add_peer_with_share(serverid, bucket)\n",
+      "            for bucket in sorted(res):\n                self.peer_selector.add_peer_with_share(tracker.get_serverid(), bucket)\n", None),
+    M("vanish-allocation-for", UP, "    def _allocation_for(self, tracker):", "    def _allocation_forX(self, tracker):", "ANALYSIS-ERROR",
+      edits=[(UP, "                shares_to_ask = self._allocation_for(tracker)\n", "                shares_to_ask = self._allocation_forX(tracker)\n")]),
+
     # ---- vanished anchors
     M("vanish-flow-graph", HU, "def _servermap_flow_graph(peers, shares, servermap):", "def _servermap_flow_graphX(peers, shares, servermap):",
       "ANALYSIS-ERROR", edits=[(HU, "        graph = _servermap_flow_graph(peers, shares, servermap)", "        graph = _servermap_flow_graphX(peers, shares, servermap)")]),
